@@ -54,6 +54,14 @@
 (*  "clip"    start st and end en (integer ticks of unit u), written as    *)
 (*            enc in "num", "int", "str", "str_num", "num_str"             *)
 (*  "score"   field (one of Fields), value v (one of ScoreValues), enc     *)
+(* Fields that say HOW the case is run and that Valid never reads:         *)
+(*   mp  the mapping type handed to the dict-validation path (model_validate*)
+(*       accepts any Mapping): "dict", "proxy" (types.MappingProxyType),   *)
+(*       "userdict", "chainmap", "ordered"; nested match mappings too      *)
+(*   opt present (= 1) on the few cases that were executed in a child      *)
+(*       interpreter started with -O (assert statements compiled away):    *)
+(*       the statement says "for any combination of inputs", however the   *)
+(*       library is run                                                    *)
 (* Every case is built through Paths; the observation lists, per path,     *)
 (* whether an object was built and what it stores.                         *)
 (***************************************************************************)
